@@ -478,6 +478,10 @@ class Generator:
             return
         o, c = it.body_open, src.match[it.body_open]
         hdr = src.text[s[it.kw].start:s[o].end]
+        if "no-where" in opts.get("flags", ""):
+            # R4b: trait bounds that only serve formatting (`where T: Debug`) are dropped
+            hdr = re.sub(r"\bwhere\b.*\{$", "{", hdr, flags=re.S)
+            rules["R4"] = rules.get("R4", 0) + 1
         derive = opts.get("derive")
         if derive:
             self.out.emit("#[derive(%s)]\n" % ", ".join(derive.split()), "template", rel, lineno)
